@@ -14,7 +14,7 @@ Handler `sconn`: executable face of `Model/SConn.lean` (hosting and orientation 
   statements).
 
 Reply (one line):
-`valid <0|1> nodup <0|1> verdict <ok|TypeError|RTLIRConversionError> nets ((w (reached…)) …) tree ((u v) …)
+`valid <0|1> nodup <0|1> cyclic <0|1> verdict <ok|TypeError|RTLIRConversionError> nets ((w (reached…)) …) tree ((u v) …)
  filed ((c ((u v) …)) …) emit ((c ok ((u v) …)) | (c err <class>) …) assigns ((c u v) …)`
 — `reached` and `filed` sorted, `tree` in filing order, `emit` / `assigns` in emission order; components `1 … n-1`.
 A request with ids out of range is `bad-op`.
@@ -69,18 +69,19 @@ def handle : List Sexp → Option String
         | some e => e.2
         | none => H.nbrs u
       let comps := (List.range par.length).tail
-      let v := match verdict H nb with
+      let T := treeEdges H nb
+      let v := match verdictOf H T with
         | none => "ok"
         | some e => e.pyClass
       let netsS := ns.map (fun n => s!"({n.1} {showNats (PV.Nets.sortDedup (n.1 :: (traverse H nb n.1).map (·.2)))})")
-      let filedS := comps.map (fun c => s!"({c} {showPairs (sortP (filed H nb c))})")
+      let filedS := comps.map (fun c => s!"({c} {showPairs (sortP (filedOf H T c))})")
       let emitS := comps.map (fun c =>
-        match emit H nb c with
+        match emitOf H T c with
         | .ok l => s!"({c} ok {showPairs l})"
         | .error e => s!"({c} err {e.pyClass})")
-      let asgS := (assigns H nb).map (fun a => s!"({a.1} {a.2.1} {a.2.2})")
-      some (s!"valid {b01 (validOrderB H nb)} nodup {b01 (stmtsNodupB H)} verdict {v} " ++
-            s!"nets ({" ".intercalate netsS}) tree {showPairs (treeEdges H nb)} " ++
+      let asgS := (assignsOf H T).map (fun a => s!"({a.1} {a.2.1} {a.2.2})")
+      some (s!"valid {b01 (validOrderB H nb)} nodup {b01 (stmtsNodupB H)} cyclic {b01 (PV.Nets.cyc H.edges)} verdict {v} " ++
+            s!"nets ({" ".intercalate netsS}) tree {showPairs T} " ++
             s!"filed ({" ".intercalate filedS}) emit ({" ".intercalate emitS}) assigns ({" ".intercalate asgS})")
   | _ => none
 
